@@ -35,6 +35,12 @@
 // before Done() (os.Exit(3), os.Exit(0), panic), every history starts with "a failing launch,
 // then a healthy one". Each healthy call is judged by the same oracle (its own handler index
 // in marker/predone); calls of failing handlers are outside the statement and only counted.
+// (g) slow daemons: the handler waits at a gate (file gate.open) between its marker and
+// predone/Done(); the supervisor keeps the gate closed for D = 8 (quick) / 8, 20, 45 s (thorough)
+// after the handler arrived there, then decides - before it creates gate.open - whether the
+// caller has written ret.<i> (Launch returned): that is the violation
+// "launch-returned-before-Done:gate-closed@Ds"; the D seconds are only the exposure window.
+// Afterwards the gate is opened and the normal post-conditions are judged.
 package main
 
 import (
@@ -80,11 +86,18 @@ type Case struct {
 	Sched  string  `json:"sched"` // schedule class, part of the violation key
 	Groups []Group `json:"groups"`
 	Id     string  `json:"id"`
+	// GateSecs > 0: handlers of kind "g" wait at a gate before Done(); the supervisor keeps the
+	// gate closed for that many seconds after every gated handler arrived there (exposure
+	// window), checks that none of their Launch calls has returned, and only then opens it.
+	GateSecs int `json:"gate_closed_s,omitempty"`
 }
 
 func (cs Case) shape() string {
 	var sb strings.Builder
 	sb.WriteString(cs.Sched)
+	if cs.GateSecs > 0 {
+		fmt.Fprintf(&sb, "|gate=%ds", cs.GateSecs)
+	}
 	for _, g := range cs.Groups {
 		fmt.Fprintf(&sb, "|f=%v:%v:l%d:k%v:s%v:p%d", g.Forced, g.Delays, g.LingerMs, g.Kinds, g.Steps, g.Procs)
 	}
@@ -176,6 +189,9 @@ func runCase(cs Case, c *drv.Ctx, root string) (vd verdict) {
 		cmd := exec.Command(self)
 		cmd.Env = append(cleanEnv(), envRole+"=caller", envDir+"="+gr.dir, envSeq+"="+cs.Id,
 			envDelays+"="+joinInts(gr.g.Delays), envSup+"="+strconv.Itoa(os.Getpid()))
+		if cs.GateSecs > 0 {
+			cmd.Env = append(cmd.Env, envCap+"="+strconv.Itoa(cs.GateSecs+int(launchWatchdog/time.Second)))
+		}
 		if len(gr.g.Kinds) > 0 {
 			cmd.Env = append(cmd.Env, envKinds+"="+strings.Join(gr.g.Kinds, ","))
 		}
@@ -218,6 +234,11 @@ func runCase(cs Case, c *drv.Ctx, root string) (vd verdict) {
 			return verdict{inconclusive: "cannot start caller: " + gr.startErr.Error()}
 		}
 	}
+	if cs.GateSecs > 0 {
+		if v := gateWindow(cs, runs, c); v.bad() {
+			return v
+		}
+	}
 	deadline := time.Now().Add(launchWatchdog)
 	for _, gr := range runs {
 		select {
@@ -252,6 +273,94 @@ func runCase(cs Case, c *drv.Ctx, root string) (vd verdict) {
 		}
 	}
 	return vd
+}
+
+func gateKey(cs Case) string {
+	return fmt.Sprintf("launch-returned-before-Done:gate-closed@%ds", cs.GateSecs)
+}
+
+// gateWindow keeps the gate of every caller closed for cs.GateSecs seconds, counted from the
+// moment all gated handlers have arrived at it. The sleep is only the exposure window. The
+// verdict is structural: a ret.<i> file (written by the caller when Launch returned) of a gated
+// call exists while gate.open - which only this function creates, afterwards - does not: Launch
+// returned although its handler cannot have called Done().
+func gateWindow(cs Case, runs []*groupRun, c *drv.Ctx) verdict {
+	gated := func(gr *groupRun) (idx []int) {
+		for i := range gr.g.Delays {
+			if gr.g.kind(i) == kindGated {
+				idx = append(idx, i)
+			}
+		}
+		return
+	}
+	returned := func() (gr0 *groupRun, i0 int, found bool) {
+		for _, gr := range runs {
+			for _, i := range gated(gr) {
+				if exists(filepath.Join(gr.dir, fmt.Sprintf("ret.%d", i))) {
+					return gr, i, true
+				}
+			}
+		}
+		return nil, 0, false
+	}
+	callerGone := func() bool {
+		for _, gr := range runs {
+			select {
+			case <-gr.waited:
+				return true
+			default:
+			}
+		}
+		return false
+	}
+	arrived := func() bool {
+		for _, gr := range runs {
+			if len(listPrefixed(gr.dir, "atgate.")) < len(gated(gr)) {
+				return false
+			}
+		}
+		return true
+	}
+	atGate := waitFor(launchWatchdog, func() bool {
+		_, _, r := returned()
+		return arrived() || r || callerGone()
+	}) && arrived()
+	t0 := time.Now()
+	polls := int64(0)
+	if atGate {
+		for time.Since(t0) < time.Duration(cs.GateSecs)*time.Second {
+			if _, _, r := returned(); r || callerGone() {
+				break
+			}
+			polls++
+			time.Sleep(10 * time.Millisecond)
+		}
+	}
+	// ---- the decision, taken while gate.open does not exist ----
+	if gr, i, r := returned(); r {
+		var cr CallReport
+		readJSON(filepath.Join(gr.dir, fmt.Sprintf("ret.%d", i)), &cr)
+		markers, dones := readDir(gr.dir)
+		mi, _ := markerOfIdx(markers, i)
+		st, same := sameProcess(mi.Pid, mi.Start)
+		return verdict{key: gateKey(cs),
+			expected: fmt.Sprintf("%s does not return while its handler (process %d) waits at the closed gate, i.e. before it called Done() - however slowly the daemon reaches Done()", describe(cs, gr, i), mi.Pid),
+			observed: fmt.Sprintf("Launch returned (%d, %q) %.1f s after the handler arrived at the gate, gate.open not yet created; handler process %d is %s (state %s), predone present at return=%v, done record=%+v",
+				cr.Pid, cr.Err, time.Since(t0).Seconds(), mi.Pid, aliveWord(same && st.alive()), st.State, cr.PreDonePresent, dones[mi.Pid])}
+	}
+	if !atGate {
+		return verdict{inconclusive: fmt.Sprintf("gated handlers did not arrive at the gate within %v (caller gone=%v)", launchWatchdog, callerGone())}
+	}
+	if callerGone() {
+		return verdict{inconclusive: "a caller exited during the gate window without a gated Launch having returned"}
+	}
+	c.Add("gate_windows_held_closed", 1)
+	c.Add("gate_polls_launch_not_returned", polls)
+	c.MaxOf("gate_closed_seconds", int64(time.Since(t0).Seconds()))
+	for _, gr := range runs {
+		os.WriteFile(filepath.Join(gr.dir, gateName), nil, 0o644)
+	}
+	return verdict{}
 }
 
 // cleanup kills every process group of the scenario and every daemon that left a marker,
@@ -486,7 +595,7 @@ func judgeExited(cs Case, gr *groupRun, c *drv.Ctx) verdict {
 	needDone := false
 	nHealthy := 0
 	for i, r := range rep.Calls {
-		if gr.g.kind(i) != kindHealthy {
+		if !healthyKind(gr.g.kind(i)) {
 			continue
 		}
 		nHealthy++
@@ -506,7 +615,7 @@ func judgeExited(cs Case, gr *groupRun, c *drv.Ctx) verdict {
 
 	var incon []string
 	for i, r := range rep.Calls {
-		if k := gr.g.kind(i); k != kindHealthy {
+		if k := gr.g.kind(i); !healthyKind(k) {
 			// A handler that never reaches Done(): the statement says nothing about what Launch
 			// returns for it (on the unchanged code: an error for a non-zero exit, (pid, nil) for
 			// exit 0). It is history for the healthy calls around it; only counted.
@@ -527,6 +636,13 @@ func judgeExited(cs Case, gr *groupRun, c *drv.Ctx) verdict {
 			continue
 		}
 		what := describe(cs, gr, i)
+		if gr.g.kind(i) == kindGated {
+			if !r.GateOpen { // the caller's own observation at the moment Launch returned
+				return verdict{key: gateKey(cs), expected: what + " does not return while its handler waits at the closed gate, i.e. before it called Done()",
+					observed: fmt.Sprintf("Launch returned (%d, %q) and gate.open did not exist at that moment (predone present=%v)", r.Pid, r.Err, r.PreDonePresent)}
+			}
+			c.Add("gated_launches_returned_only_after_gate_opened", 1)
+		}
 		mi, haveMi := markerOfIdx(markers, i)
 		di := dones[mi.Pid]
 		_, haveDi := dones[mi.Pid]
@@ -692,7 +808,7 @@ type mon struct{}
 func (mon) Name() string { return "daemonlaunch" }
 
 func (mon) Level(string) (string, string) {
-	return "exploration", "scenarios = caller processes calling daemon.Launch 1, 2 or 8 times concurrently; schedules: natural timing with the handler sleeping 0/5/200 ms before Done(); forced early Done() (launcher held by the verif pause hook right after cmd.Start() until every daemon of the caller returned from Done()); concurrent calls all natural, all forced, or one forced and one natural caller at the same time; all of these again with a launcher process that lingers 50/300 ms between daemon.Run() returning and os.Exit(0). histories of 6..12 calls in one caller process (sequential or in steps of 1-3 concurrent calls, GOMAXPROCS default or 1) in which handlers that fail before Done() (exit 3, exit 0, panic) are interleaved with healthy ones. Other timings of the three processes are sampled by repetition only. distinct_nontrivial = distinct (schedule class, forced flag and delay vector per caller) shapes"
+	return "exploration", "scenarios = caller processes calling daemon.Launch 1, 2 or 8 times concurrently; schedules: natural timing with the handler sleeping 0/5/200 ms before Done(); forced early Done() (launcher held by the verif pause hook right after cmd.Start() until every daemon of the caller returned from Done()); concurrent calls all natural, all forced, or one forced and one natural caller at the same time; all of these again with a launcher process that lingers 50/300 ms between daemon.Run() returning and os.Exit(0). histories of 6..12 calls in one caller process (sequential or in steps of 1-3 concurrent calls, GOMAXPROCS default or 1) in which handlers that fail before Done() (exit 3, exit 0, panic) are interleaved with healthy ones; slow daemons: the handler waits before Done() at a gate that the supervisor keeps closed for 8 s (quick) or 8/20/45 s (thorough) - Launch must not have returned (no ret file of the caller) at the moment the supervisor decides to open the gate, the seconds being exposure only. Other timings of the three processes are sampled by repetition only. distinct_nontrivial = distinct (schedule class, forced flag and delay vector per caller) shapes"
 }
 
 func (mon) Assumptions(string) []string {
@@ -723,6 +839,11 @@ var classes = []string{
 	"h-seq", "h-seq-p1", "h-mix", "h-mix-p1",
 }
 
+// slow daemons: the handler waits at a gate the supervisor keeps closed for D seconds. One
+// scenario per shard; they run next to the other shards.
+var gateClassesQuick = []string{"g-gate-8"}
+var gateClassesThorough = []string{"g-gate-8", "g-gate-20", "g-gate-45"}
+
 var failKinds = []string{kindExit3, kindExit0, kindPanic}
 
 var lingerChoices = []int{50, 300}
@@ -739,6 +860,18 @@ func (mon) Plan(prop, tier string, seed int64) []drv.Shard {
 			out = append(out, drv.Shard{Name: fmt.Sprintf("%s-p%d", cl, p), Args: a, Secs: 600})
 		}
 	}
+	gc, gparts := gateClassesQuick, 1
+	if tier == "thorough" {
+		gc, gparts = gateClassesThorough, 2
+	}
+	var gates []drv.Shard
+	for _, cl := range gc {
+		for p := 0; p < gparts; p++ {
+			a, _ := json.Marshal(shardArgs{Class: cl, Part: p, Runs: 1})
+			gates = append(gates, drv.Shard{Name: fmt.Sprintf("%s-p%d", cl, p), Args: a, Secs: 600})
+		}
+	}
+	out = append(gates, out...) // started first: they mostly wait
 	return out
 }
 
@@ -753,6 +886,14 @@ func genCase(class string, seed int64, part, run int) Case {
 	case "a", "b":
 		d, _ := strconv.Atoi(strings.TrimPrefix(f[1], "d"))
 		cs.Groups = []Group{{Forced: f[0] == "b", Delays: []int{d}}}
+	case "g":
+		cs.GateSecs, _ = strconv.Atoi(f[2])
+		g := Group{Delays: []int{delayChoices[r.Intn(2)]}, Kinds: []string{kindGated}}
+		if part%2 == 1 { // next to the gated call an ordinary one in the same caller
+			g.Delays = append(g.Delays, delayChoices[r.Intn(len(delayChoices))])
+			g.Kinds = append(g.Kinds, kindHealthy)
+		}
+		cs.Groups = []Group{g}
 	case "h":
 		n := 6 + r.Intn(maxN-5) // 6..12 calls
 		g := Group{Delays: make([]int, n), Kinds: make([]string, n)}
